@@ -476,6 +476,37 @@ func ruleC16Accounting(c *Ctx) {
 		got := producers[typ]
 		c.Check(strings.HasSuffix(got, fn), "c16.accounting", key+"/arm/"+typ, c.P.Pos(f.Pos()), typ+" arguments are rendered by "+got, fmt.Sprintf("a %s argument is rendered by %q (want %s): its content reaches the statement unquoted or mis-formatted", typ, got, fn))
 	}
+	// what is written is what was rendered: the text handed to the buffer is the part itself, a constant, or the result of
+	// a rendering call — never a concatenation around it (round 9: `str = " " + str + " "`, the padding pgx applies, turns
+	// `1--$1` into `1-- 5`: for this parser `--` followed by a blank opens a comment and the rest of the statement is gone)
+	writes, glued := 0, ""
+	deepInstrs(f, func(_ *ssa.Function, tb *TB, _ *ssa.BasicBlock, in ssa.Instruction) {
+		call, ok := in.(*ssa.Call)
+		if !ok || call.Common().StaticCallee() == nil {
+			return
+		}
+		cn := funcName(call.Common().StaticCallee())
+		if !strings.HasSuffix(cn, "Buffer).WriteString") && !strings.HasSuffix(cn, "Builder).WriteString") && !strings.HasSuffix(cn, "Buffer).Write") && !strings.HasSuffix(cn, "Builder).Write") {
+			return
+		}
+		args := call.Common().Args
+		if len(args) < 2 {
+			return
+		}
+		writes++
+		t := tb.Of(args[1])
+		if t.Contains(func(x *Term) bool { return x.Op == "bin" && x.Name == "+" && x.Typ != nil && isStringType(x.Typ) }) || t.Contains(func(x *Term) bool {
+			return x.Op == "call" && (strings.HasSuffix(x.Name, "fmt.Sprintf") || strings.HasSuffix(x.Name, "strings.Join") || strings.HasSuffix(x.Name, "fmt.Sprint"))
+		}) {
+			glued = "the text written for a part at " + c.P.Pos(call.Pos()) + " is a concatenation around the rendered argument (" + cut(t.String(), 120) + "): characters the caller did not write stand next to the value — a blank after `--` opens a comment for this parser, so `1--$1` loses the rest of the statement"
+		}
+	})
+	c.Check(writes > 0 && glued == "", "c16.accounting", key+"/written-as-rendered", c.P.Pos(f.Pos()), "every text written to the output is a part of the template, a constant or the result of a rendering call, with nothing glued to it", func() string {
+		if writes == 0 {
+			return "no write of a part to the output buffer was found"
+		}
+		return glued
+	}())
 	// used marking and the unused loop
 	marks, markWhy := false, "no placeholder marks its argument as used"
 	var argIndex ssa.Value
